@@ -80,11 +80,14 @@ def parsePair (s : String) : Option (List Spec × Res) :=
     | _ => none
   | _ => none
 
-def parseSig (s : String) : Option Sig :=
+/-- `m=2`: an unexported method mocked through `ExportMethod(..).As(..)`: goom is handed a plain function whose
+    parameter 0 is the receiver (`DefMocker`, `isMethod = false`); the flag says calls carry the receiver as argument 0 -/
+def parseSig (s : String) : Option (Sig × Bool) :=
   match (s.splitOn ",").map (fun kv => kv.splitOn "=") with
   | [["n", n], ["v", v], ["m", m], ["o", o]] => do
     let n ← n.toNat?; let v ← v.toNat?; let m ← m.toNat?; let o ← o.toNat?
-    some { nIn := n, variadic := v != 0, isMethod := m != 0, numOut := o }
+    if m = 2 then some ({ nIn := n + 1, variadic := v != 0, isMethod := false, numOut := o }, true)
+    else some ({ nIn := n, variadic := v != 0, isMethod := m != 0, numOut := o }, false)
   | _ => none
 
 def parseClause (sig : Sig) : List String → Option Clause
@@ -102,9 +105,8 @@ def splitOnTok (sep : String) (toks : List String) : List (List String) :=
   acc ++ [cur]
 
 def errName : Err → String
-  | .nosuitable => "nosuitable" | .arglen => "arglen" | .retlen => "retlen" | .whenerr => "whenerr" | .inerr => "inerr"
-  | .reterr => "reterr" | .reflect => "reflect" | .runtime => "runtime" | .evalerr => "evalerr"
-  | .unmodelled => "unmodelled"
+  | .nosuitable => "nosuitable" | .reflect => "reflect" | .runtime => "runtime" | .unmodelled => "unmodelled"
+  | .arglen | .retlen | .whenerr | .inerr | .reterr | .evalerr => "reject"   -- goom refuses with an explicit message
 
 def eqIdx (a b : Val) : Bool := a == b
 
@@ -112,51 +114,80 @@ def showOut (sig : Sig) : Out → String
   | .ret r => if sig.numOut = 0 then "ret:-" else s!"ret:{r}"
   | .unit => "ret:-"
 
-/-- run the clauses; returns the observation tokens and the state unless a clause panicked -/
-def runClauses (sig : Sig) : Option W → List Clause → List String → List String × Option W
-  | w, [], acc => (acc, w)
-  | none, c :: cs, acc =>
-    match first sig c with
-    | .ok w => runClauses sig (some w) cs (acc ++ ["ok"])
-    | .error e => (acc ++ [s!"panic:{errName e}", "stop"], none)
-  | some w, c :: cs, acc =>
-    match w.step c with
-    | .ok w => runClauses sig (some w) cs (acc ++ ["ok"])
-    | .error e => (acc ++ [s!"panic:{errName e}", "stop"], none)
+def showObs (sig : Sig) : Obs → String
+  | .ok => "ok"
+  | .out o => showOut sig o
+  | .panic e => s!"panic:{errName e}"
+  | .stop => "stop"
 
-def parseCall : List String → Option (Val × List Val)
-  | ["call", r, a] => do
-    let recv ← if r = "-" then some 0 else r.toNat?.map (· + 1000)
-    let xs ← parseVals a
-    some (recv, xs)
-  | _ => none
+inductive DStep where
+  | clause (c : Clause)
+  | call (recv : Val) (xs : List Val)
+  | conc (calls : List (Val × List Val))
 
-def runCalls (evalMode : Bool) : W → List (Val × List Val) → List String → List String
+def parseRecvArgs (asMeth : Bool) (r a : String) : Option (Val × List Val) := do
+  let recv ← if r = "-" then some 0 else r.toNat?.map (· + 1000)
+  let xs ← parseVals a
+  some (recv, if asMeth then recv :: xs else xs)
+
+def parseStep (sig : Sig) (asMeth : Bool) : List String → Option DStep
+  | ["call", r, a] => (parseRecvArgs asMeth r a).map (fun p => .call p.1 p.2)
+  | "conc" :: _reps :: jobs =>
+    (jobs.mapM (fun (t : String) => match t.splitOn ":" with
+      | [r, a] => parseRecvArgs asMeth r a
+      | _ => none)).map DStep.conc
+  | toks => (parseClause sig toks).map DStep.clause
+
+/-- one call as the mode makes it: `eval` through `When.Eval`, `calld` a compiled call site, else reflect -/
+def oneCall (mode : String) (w : W) (recv : Val) (xs : List Val) : List Obs × Option W :=
+  if mode == "eval" then
+    match w.evalCall eqIdx xs with
+    | .ok (o, w') => ([.out o], some w')
+    | .error e => ([.panic e], some w)
+  else w.stepObs eqIdx (.call (mode == "calld") recv xs)
+
+def concObs (mode : String) (w : W) (sig : Sig) (calls : List (Val × List Val)) : String :=
+  "conc:" ++ String.intercalate "/" (calls.map (fun p =>
+    String.intercalate " " ((oneCall mode w p.1 p.2).1.map (showObs sig))))
+
+def runSteps (mode : String) (sig : Sig) : Option W → List DStep → List String → List String
   | _, [], acc => acc
-  | w, (recv, xs) :: cs, acc =>
-    let r := if evalMode then w.evalCall eqIdx xs else w.invoke eqIdx (encodeCall w.sig recv xs)
-    match r with
-    | .ok (o, w') => runCalls evalMode w' cs (acc ++ [showOut w.sig o])
-    | .error e => runCalls evalMode w cs (acc ++ [s!"panic:{errName e}"])
+  | none, .clause c :: rest, acc =>
+    match first sig c with
+    | .ok w => runSteps mode sig (some w) rest (acc ++ ["ok"])
+    | .error e => acc ++ [s!"panic:{errName e}", "stop"]
+  | none, _ :: _, _ => ["bad-op"]
+  | some w, .clause c :: rest, acc =>
+    match w.stepObs eqIdx (.clause c) with
+    | (obs, some w') => runSteps mode sig (some w') rest (acc ++ obs.map (showObs sig))
+    | (obs, none) => acc ++ obs.map (showObs sig)
+  | some w, .call recv xs :: rest, acc =>
+    match oneCall mode w recv xs with
+    | (obs, some w') => runSteps mode sig (some w') rest (acc ++ obs.map (showObs sig))
+    | (obs, none) => acc ++ obs.map (showObs sig)
+  | some w, .conc calls :: rest, acc => runSteps mode sig (some w) rest (acc ++ [concObs mode w sig calls])
 
 def handle (toks : List String) : Option String :=
   match toks with
-  | "c04" :: rest =>
-    match splitOnTok "|" ("c04" :: rest) with
-    | [["c04", mode, _target, sigS], cl, ca] =>
-      if mode != "call" && mode != "callm" && mode != "eval" then some "bad-op" else
-      match parseSig sigS with
-      | none => some "bad-op"
-      | some sig =>
-        let cls := (splitOnTok ";" cl).filter (· ≠ [])
-        let cas := (splitOnTok ";" ca).filter (· ≠ [])
-        match cls.mapM (parseClause sig), cas.mapM parseCall with
-        | some clauses, some calls =>
-          match runClauses sig none clauses [] with
-          | (acc, some w) => some (String.intercalate " " (runCalls (mode == "eval") w calls acc))
-          | (acc, none) => if clauses.isEmpty then some "bad-op" else some (String.intercalate " " acc)
-        | _, _ => some "bad-op"
-    | _ => some "bad-op"
+  | "c04" :: _ =>
+    match splitOnTok "|" toks with
+    | hd :: secs =>
+      match hd with
+      | "c04" :: mode :: _target :: sigS :: opts =>
+        if mode != "call" && mode != "callm" && mode != "calld" && mode != "eval" then some "bad-op" else
+        if opts != [] && opts != ["s"] then some "bad-op" else
+        if secs.isEmpty then some "bad-op" else
+        match parseSig sigS with
+        | none => some "bad-op"
+        | some (sig, asMeth) =>
+          let steps := (secs.flatMap (splitOnTok ";")).filter (· ≠ [])
+          match steps.mapM (parseStep sig asMeth) with
+          | some ds =>
+            if !(ds.any (fun d => match d with | .clause _ => true | _ => false)) then some "bad-op" else
+            some (String.intercalate " " (runSteps mode sig none ds []))
+          | none => some "bad-op"
+      | _ => some "bad-op"
+    | [] => some "bad-op"
   | _ => none
 
 end Drv.C04
